@@ -18,7 +18,7 @@ Inductive keyty := KId | KString.
 Record keyfield := { kf_path : list string; kf_type : keyty }.
 Record resolver := { rs_name : string (* Go name of the user's resolver *); rs_keys : list keyfield }.
 Record entity := { en_name : string; en_multi : bool; en_resolvers : list resolver;
-                   en_requires : list string (* top-level nullable Int fields populated from the representation *) }.
+                   en_requires : list (list string) (* nullable Int fields populated from the representation, as paths: ["size"], ["author"; "reputation"] *) }.
 
 Fixpoint find_entity (es : list entity) (n : string) {struct es} : option entity :=
   match es with [] => None | e :: r => if String.eqb (en_name e) n then Some e else find_entity r n end.
@@ -81,12 +81,39 @@ Definition unm_req (o : option jval) : option (option string) :=
   | Some _ => None
   end.
 
-Fixpoint requires_of (r : rep) (fs : list string) {struct fs} : option (list (string * option string)) :=
+(** what the generated assignment [entity.A.B, err = unmarshal(rep["a"].(map[string]any)["b"])] reads: every step
+    but the last is a type assertion, which panics on a missing key (a nil interface) or a value that is no map *)
+Fixpoint req_walk (m : rep) (p : list string) {struct p} : walk_r :=
+  match p with
+  | [] => WMissing
+  | [k] => match lookup k m with None => WMissing | Some v => WVal v end
+  | k :: rest => match lookup k m with Some (VMap m') => req_walk m' rest | _ => WNotMap end
+  end.
+Definition req_value (r : rep) (p : list string) : option (option string) :=
+  match req_walk r p with
+  | WVal v => unm_req (Some v)
+  | WMissing => unm_req None
+  | WNotMap => None
+  end.
+Fixpoint req_name (p : list string) {struct p} : string :=
+  match p with [] => "" | [k] => k | k :: rest => k ++ "." ++ req_name rest end.
+
+Fixpoint requires_of (r : rep) (fs : list (list string)) {struct fs} : option (list (string * option string)) :=
   match fs with
   | [] => Some []
-  | f :: rest => match unm_req (lookup f r), requires_of r rest with
-                 | Some v, Some l => Some ((f, v) :: l)
+  | f :: rest => match req_value r f, requires_of r rest with
+                 | Some v, Some l => Some ((req_name f, v) :: l)
                  | _, _ => None
+                 end
+  end.
+(** why [requires_of] failed: the first required field that does not come out - a failed type assertion (a panic,
+    recovered) or a value that does not unmarshal *)
+Fixpoint requires_fail (r : rep) (fs : list (list string)) {struct fs} : ecls :=
+  match fs with
+  | [] => ERequires
+  | f :: rest => match req_walk r f with
+                 | WNotMap => ETypeAssert
+                 | _ => match req_value r f with Some _ => requires_fail r rest | None => ERequires end
                  end
   end.
 
@@ -152,7 +179,7 @@ Definition single_res (es : list entity) (o : oracle) (tn : string) (r : rep) : 
                            end
                 | PValue => match requires_of r (en_requires e) with
                             | Some reqs => SWrite [echo] (ElEntity tn echo reqs)
-                            | None => SFail [echo] ERequires
+                            | None => SFail [echo] (requires_fail r (en_requires e))
                             end
                 end
             end
@@ -225,7 +252,7 @@ Fixpoint batch_outcome (o : oracle) (echoes : list string) {struct echoes} : opt
 
 (** the zip loop after the call: requires from reps[i], then list[reps[i].index] = entity; the first failure
     ends the loop and keeps what was already written *)
-Fixpoint batch_zip (tn : string) (reqf : list string) (o : oracle) (reps : list (nat * rep)) (echoes : list string)
+Fixpoint batch_zip (tn : string) (reqf : list (list string)) (o : oracle) (reps : list (nat * rep)) (echoes : list string)
   {struct reps} : list act :=
   match reps, echoes with
   | (idx, r) :: rest, echo :: erest =>
@@ -236,7 +263,7 @@ Fixpoint batch_zip (tn : string) (reqf : list string) (o : oracle) (reps : list 
                  end
       | _ => match requires_of r reqf with
              | Some reqs => AWrite idx (ElEntity tn echo reqs) :: batch_zip tn reqf o rest erest
-             | None => [AErr ERequires]
+             | None => [AErr (requires_fail r reqf)]
              end
       end
   | _, _ => []
